@@ -140,7 +140,8 @@ type ReplayFile struct {
 	RunSeed   uint64            `json:"run_seed"` // tape seed of the failing run
 	Tier      string            `json:"tier"`
 	Param     map[string]string `json:"param,omitempty"`
-	Tape      []uint32          `json:"tape"` // minimised choice tape
+	Tape      []uint32          `json:"tape"`                       // minimised choice tape
+	TapeFull  []uint32          `json:"tape_unminimised,omitempty"` // the original failing tape
 	TapeOrig  int               `json:"tape_len_before_shrink"`
 	ShrinkRun int               `json:"shrink_executions"`
 	TraceHash string            `json:"trace_hash"`
@@ -177,9 +178,14 @@ func Shrink(t *testing.T, p *Prop, tier string, seed uint64, vals []uint32, want
 		if runs >= budget {
 			return false
 		}
-		runs++
-		o := Execute(t, p, tier, ReplayTape(seed, cand), nil, true, param)
-		return o.Failure != nil && o.Failure.Oracle == want.Oracle && o.Failure.Sig == want.Sig
+		for k := 0; k < 2; k++ { // twice in a row: a candidate that fails only sometimes is useless as a replay
+			runs++
+			o := Execute(t, p, tier, ReplayTape(seed, cand), nil, true, param)
+			if !(o.Failure != nil && o.Failure.Oracle == want.Oracle && o.Failure.Sig == want.Sig) {
+				return false
+			}
+		}
+		return true
 	}
 	cur := append([]uint32(nil), vals...)
 	// the replayed original must fail, else do not shrink at all
